@@ -136,6 +136,7 @@ type Result struct {
 	FailOff  int
 	Expected []string
 	NoMatch  bool // the synthesized "no match found" error is the (only) error
+	Evals    int  // number of expression evaluations (one per expression node entered)
 }
 
 type handler struct {
@@ -752,6 +753,7 @@ func Run(g *Grammar, entry string, in []byte, cfg Config) (res Result) {
 		res.State = m.state
 		res.Global = m.global
 		res.Errs = dedupe(m.errs)
+		res.Evals = m.steps
 	}
 	defer func() {
 		if p := recover(); p != nil {
